@@ -121,7 +121,9 @@ class Exec:
         if isinstance(res.value, Exception):
             raise HarnessError(f"history failed: {res.value}")
         self.res = res.value
-        frames = sim.variables or []
+        self.sim = sim
+        self.T_end = T
+        frames = list(sim.variables or [])
         if len(frames) != len(self.seg_params):
             raise HarnessError("segment bookkeeping out of sync")
         self.segments = [(np.asarray(f.index, dtype=float), f.to_numpy(dtype=float), list(f.columns)) for f in frames]
@@ -260,6 +262,18 @@ class Exec:
         import pandas as pd
 
         self.i = i
+        if op["op"] == "continue":
+            # the simulator carries on AFTER the result was taken; the result the user holds
+            # is a finished object and must keep answering as before
+            try:
+                self.T_end += float(op["dt"])
+                self.sim.simulate(self.T_end, steps=2)
+            except Exception as e:  # noqa: BLE001
+                self.trace.add("continue", "exc", type(e).__name__)
+                return
+            self.counters["simulator_continued_after_result_taken"] += 1
+            self.trace.add("continue", op["dt"])
+            return
         if op["op"] == "mutate":
             # the user keeps working with the model after the simulation
             if op["how"] == "update":
@@ -276,6 +290,8 @@ class Exec:
         first = "first_read_after_mutation" if (self.mutated and not self.first_reads) else ("after_mutation" if self.mutated else "clean")
         self.shape.add((v, nk, conc, bool(op.get("scaled")), first, self.case["model"], len(self.segments) > 1))
         tag = [v, f"normalise:{nk}", "concatenated" if conc else "list", f"model:{self.case['model']}", "multi_segment" if len(self.segments) > 1 else "one_segment"]
+        if self.counters.get("simulator_continued_after_result_taken"):
+            tag.append("simulator_continued_after_result_taken")
         try:
             got = self.call(op)
         except HarnessError:
@@ -343,6 +359,10 @@ class Exec:
         except Exception as e:  # noqa: BLE001
             self._viol("view_error", ["view_error", "final", type(e).__name__], f"reading fluxes / right-hand side raised {type(e).__name__}")
             return
+        if len(fl) != len(self.o_stoich) or len(rhs) != len(self.o_stoich):
+            cont = "after_simulator_continued" if self.counters.get("simulator_continued_after_result_taken") else "no_continuation"
+            self._viol("held_result_changed", ["held_result_changed", f"model:{self.case['model']}", cont], f"the result object held {len(self.o_stoich)} segments when it was taken and now reports {len(fl)} flux segments / {len(rhs)} derivative segments")
+            return
         for f, r, srows in zip(fl, rhs, self.o_stoich, strict=True):
             for j, s in enumerate(srows):
                 v = f.iloc[j]
@@ -377,6 +397,9 @@ def gen_case(rng: SimRng, tier: str) -> dict:  # noqa: ARG001, C901, PLR0912
         if r.random() < 0.2:
             ns = r.sample([p for p in params if p != "n"], r.randint(1, 2))
             ops.append({"op": "mutate", "how": r.choice(["update", "scale"]), "items": [[n, r.choice([0.25, 0.5, 2.0, 5.0])] for n in ns]})
+            continue
+        if r.random() < 0.08:
+            ops.append({"op": "continue", "dt": r.choice([0.5, 1.0])})
             continue
         if ops and r.random() < 0.25:
             prev = [o for o in ops if o["op"] == "read"]
